@@ -28,6 +28,7 @@ import (
 // names and indices stripped, kind, how), never by the input's name.
 
 type c27Outcome struct {
+	stableErr                 string
 	stableAccepts, expAccepts bool
 	compared                  int // files whose descriptors were compared
 	diffs                     int
@@ -48,6 +49,9 @@ func c27Compare(r *vlib.Run, id, rule string, w *workspace) c27Outcome {
 	ex := env.runLink(ctx, w.Targets)
 
 	oc.stableAccepts = st.Err == nil
+	if st.Err != nil {
+		oc.stableErr = st.Err.Error()
+	}
 	oc.expAccepts = !ex.rejected()
 
 	if strings.HasPrefix(fmt.Sprint(st.Err), "PANIC") {
@@ -72,7 +76,7 @@ func c27Compare(r *vlib.Run, id, rule string, w *workspace) c27Outcome {
 				}
 				iceSig = "ICE " + normMsg(d.Message()) + note + " at " + vlib.PanicSite(strings.Join(d.Debug(), "\n"))
 				r.Class("observed-ice: " + iceSig)
-				r.Sample("observed-ice: "+iceSig, map[string]any{"workspace": w.closure(), "targets": w.Targets, "notes": d.Notes()})
+				r.Sample("observed-ice: "+iceSig, map[string]any{"case": id, "rule": rule, "targets": w.Targets, "notes": d.Notes()})
 				break
 			}
 		}
